@@ -14,7 +14,7 @@ import (
 // c01Roots: the public entry points named by the property.
 func c01Roots(p *core.Prog) []*ssa.Function {
 	var roots []*ssa.Function
-	for _, rel := range []string{"pkg/gosqlx", "pkg/sql/tokenizer", "pkg/sql/parser", "pkg/sql/ast", "pkg/sql/security", "pkg/linter"} {
+	for _, rel := range []string{"pkg/gosqlx", "pkg/sql/tokenizer", "pkg/sql/parser", "pkg/sql/ast", "pkg/sql/security", "pkg/linter", "pkg/sql/keywords", "pkg/errors", "pkg/formatter"} {
 		for _, fn := range p.SrcFuncs(rel) {
 			if fn.Parent() != nil || fn.Object() == nil || !fn.Object().Exported() {
 				continue
@@ -33,7 +33,7 @@ func c01Roots(p *core.Prog) []*ssa.Function {
 	return roots
 }
 
-var boundsPkgs = []string{"pkg/sql/tokenizer", "pkg/sql/parser", "pkg/sql/ast", "pkg/gosqlx", "pkg/sql/security", "pkg/errors", "pkg/sql/keywords", "pkg/sql/token", "pkg/models", "pkg/metrics", "pkg/linter", "pkg/linter/rules/whitespace", "pkg/linter/rules/keywords", "pkg/linter/rules/style"}
+var boundsPkgs = []string{"pkg/formatter", "pkg/sql/tokenizer", "pkg/sql/parser", "pkg/sql/ast", "pkg/gosqlx", "pkg/sql/security", "pkg/errors", "pkg/sql/keywords", "pkg/sql/token", "pkg/models", "pkg/metrics", "pkg/linter", "pkg/linter/rules/whitespace", "pkg/linter/rules/keywords", "pkg/linter/rules/style"}
 
 func c01Panics(c *Ctx) {
 	r, p := c.R, c.P
@@ -154,6 +154,8 @@ func c01Panics(c *Ctx) {
 // repeatAudit: strings.Repeat sites whose count comes from caller-supplied
 // formatting options, not from the SQL input.
 var repeatAudit = map[string]string{
+	"errors.FormatMultiLineContext": "count is len(prefix)+Column-1 inside `if location.Column > 0`, so it is >= len(prefix) >= 0; the second Repeat is under highlightLen > 1 (read 2026-09-27)",
+	"errors.FormatContextWindow":    "count is len(prefix)+Column-1 inside `if location.Column > 0`, so it is >= len(prefix) >= 0; the second Repeat is under highlightLen > 1 (read 2026-09-27)",
 	"(*errors.Error).formatContext": "count is len(prefix)+Column-1 inside `if e.Location.Column > 0`, so it is >= len(prefix) >= 0 (read 2026-09-26)",
 	"(*ast.formatter).indentStr":    "count is IndentWidth*depth: IndentWidth is a caller-supplied formatting option (not SQL input) and depth only counts nesting from 0; a negative IndentWidth is a configuration error outside the property's quantifier (read 2026-09-26)",
 }
